@@ -78,6 +78,16 @@ BUILTIN = ["xs:string", "xs:int", "xs:integer", "xs:decimal", "xs:boolean", "xs:
            "xs:gYear", "xs:anyType", "xs:anySimpleType", "xs:token", "xs:ID", "xs:language", "xs:positiveInteger", "xs:byte"]
 
 
+TYPED_ENUMS = [("xs:decimal", ["1.5", "2.5", "-1"]), ("xs:float", ["1.5", "INF", "-0.5"]), ("xs:double", ["1.5", "NaN"]),
+               ("xs:date", ["2020-01-01", "2021-12-31"]), ("xs:time", ["12:00:00", "23:59:59Z"]), ("xs:dateTime", ["2020-01-01T00:00:00", "2021-01-01T12:00:00Z"]),
+               ("xs:duration", ["P1D", "PT1H", "-P1Y"]), ("xs:gYear", ["2020", "1999"]), ("xs:gYearMonth", ["2020-01"]), ("xs:gMonthDay", ["--01-31"]),
+               ("xs:QName", ["xs:int", "xs:string"]), ("xs:hexBinary", ["0A", "FF"]), ("xs:base64Binary", ["YQ==", "Yg=="]), ("xs:int", ["1", "2", "-3"]),
+               ("xs:boolean", ["true"]), ("xs:NMTOKENS", ["a b", "c"]), ("xs:anyURI", ["urn:x", "http://a/b"])]
+TYPED_DEFAULTS = [("xs:decimal", "1.5"), ("xs:float", "1.5"), ("xs:date", "2020-01-01"), ("xs:time", "12:00:00"), ("xs:dateTime", "2020-01-01T00:00:00"),
+                  ("xs:duration", "P1D"), ("xs:gYear", "2020"), ("xs:QName", "xs:int"), ("xs:hexBinary", "0A"), ("xs:base64Binary", "YQ=="),
+                  ("xs:int", "7"), ("xs:boolean", "true"), ("xs:NMTOKENS", "a b"), ("xs:double", "INF")]
+
+
 class _Schema:
     """One schema document under construction."""
 
@@ -184,6 +194,10 @@ def _attrs(r, schemas, me, names):
             tp = _type_ref(r, schemas, me, simple_only=True)
             if "default" in use or "fixed" in use:
                 tp = "xs:string"      # a default must be valid for the type, else the schema itself is invalid
+                if r.random() < 0.5:  # typed defaults: rendered as constructor calls / literals of that type
+                    tp, dv = r.choice(TYPED_DEFAULTS)
+                    use = f' {"default" if "default" in use else "fixed"}={quoteattr(dv)}'
+                    me.features.add("typed-default")
             out += f'<xs:attribute name={quoteattr(names())} type="{tp}"{use}/>'
         elif k < 0.85:
             got = _ref(r, schemas, me, "attributes")
@@ -305,7 +319,14 @@ def g_schema_set(r):
             s.current = None
         for n in s.simple:
             k = r.random()
-            if k < 0.6:
+            if k < 0.2:
+                # enumeration over a non-string base: the members are rendered as constructor calls (Decimal('1.5'),
+                # XmlDate(...), QName(...)) and may be the module's only use of that type
+                base, pool = r.choice(TYPED_ENUMS)
+                vals = "".join(f'<xs:enumeration value={quoteattr(v)}/>' for v in r.sample(pool, r.randint(1, len(pool))))
+                s.features.add("typed-enum")
+                parts.append(f'<xs:simpleType name={quoteattr(n)}><xs:restriction base="{base}">{vals}</xs:restriction></xs:simpleType>')
+            elif k < 0.6:
                 s.features.add("enum")
                 vals = "".join(f'<xs:enumeration value={quoteattr(v)}/>' for v in _enum_values(r))
                 base = r.choice(["xs:string", "xs:string", "xs:token", "xs:NMTOKEN"])
@@ -340,6 +361,17 @@ def g_schema_set(r):
             parts.append(f'<xs:attributeGroup name={quoteattr(n)}>'
                          + "".join(f'<xs:attribute name={quoteattr(g_ncname(r))} type="xs:string"/>' for _ in range(r.randint(1, 2)))
                          + '</xs:attributeGroup>')
+        if r.random() < 0.1:
+            # anonymous-typed child + repeated choice of same-typed simple elements, one of which has the child's slug in
+            # another spelling: DisambiguateChoices then creates inner reference classes next to the existing inner class
+            root, x = g_ncname(r), r.choice(["x-y", "a.b", "Ab", "value", "class"])
+            x2 = r.choice([x.replace("-", "_").replace(".", "_"), x.upper(), x.lower(), x + "_", x])
+            if root not in s.complex + s.simple + s.elements and ncname_ok(x2):
+                tp = r.choice(["xs:int", "xs:string", "xs:date"])
+                parts.append(f'<xs:element name={quoteattr(root)}><xs:complexType><xs:sequence><xs:element name={quoteattr(x)}><xs:complexType><xs:sequence>'
+                             f'<xs:element name="p" type="xs:string"/></xs:sequence></xs:complexType></xs:element><xs:choice maxOccurs="unbounded">'
+                             f'<xs:element name={quoteattr(x2)} type="{tp}"/><xs:element name="z" type="{tp}"/></xs:choice></xs:sequence></xs:complexType></xs:element>')
+                s.features.add("disambiguate-inner")
         if r.random() < 0.08:
             # shape of C07-F21: a derived type whose attributes clash with an inherited element and with the name the
             # by-preference rename would pick
